@@ -157,8 +157,9 @@ static std::string handle(const std::vector<std::string>& a) {
       std::string ftxt = unhex(a[2]);
       deserializeJson(fdoc, ftxt.c_str(), ftxt.size(), DeserializationOption::NestingLimit(50));
       JsonVariantConst fv = fdoc.as<JsonVariantConst>();
-      err = deserializeMsgPack(doc, rd, DeserializationOption::Filter(fv),
-                               DeserializationOption::NestingLimit((uint8_t)L));
+      // the two options in either order (chosen from the input's length): the order means nothing
+      err = (input.size() & 1) ? deserializeMsgPack(doc, rd, DeserializationOption::NestingLimit((uint8_t)L), DeserializationOption::Filter(fv))
+                               : deserializeMsgPack(doc, rd, DeserializationOption::Filter(fv), DeserializationOption::NestingLimit((uint8_t)L));
     }
     // exact-size heap copy through the pointer+size API as a second opinion (ASan redzones)
     JsonDocument doc2;
@@ -199,12 +200,14 @@ static std::string handle(const std::vector<std::string>& a) {
       if (doc["reuse"].as<int>() != 1) d1 += "!REUSE";
       res += std::string(kind) + "=" + codeName(err) + ":" + d1 + " ";
     };
+    int runNo = 0;
 #define RUN(kind, ...)                                                                    \
     {                                                                                     \
       JsonDocument doc;                                                                   \
       doc["stale"] = "x";                                                                 \
-      DeserializationError err = json ? (filtered ? deserializeJson(doc, __VA_ARGS__, FL, NL) : deserializeJson(doc, __VA_ARGS__, NL)) \
-                                      : (filtered ? deserializeMsgPack(doc, __VA_ARGS__, FL, NL) : deserializeMsgPack(doc, __VA_ARGS__, NL)); \
+      bool nlFirst = (runNo++ & 1) != 0;      /* the two options in either order */          \
+      DeserializationError err = json ? (filtered ? (nlFirst ? deserializeJson(doc, __VA_ARGS__, NL, FL) : deserializeJson(doc, __VA_ARGS__, FL, NL)) : deserializeJson(doc, __VA_ARGS__, NL)) \
+                                      : (filtered ? (nlFirst ? deserializeMsgPack(doc, __VA_ARGS__, NL, FL) : deserializeMsgPack(doc, __VA_ARGS__, FL, NL)) : deserializeMsgPack(doc, __VA_ARGS__, NL)); \
       report(kind, err, doc);                                                             \
     }
     size_t n = input.size();
@@ -309,8 +312,9 @@ static std::string handle(const std::vector<std::string>& a) {
     std::string r;
     {
       JsonDocument doc(&spy);
-      DeserializationError err = json ? (filtered ? deserializeJson(doc, input.data(), input.size(), FL, NL) : deserializeJson(doc, input.data(), input.size(), NL))
-                                      : (filtered ? deserializeMsgPack(doc, input.data(), input.size(), FL, NL) : deserializeMsgPack(doc, input.data(), input.size(), NL));
+      bool nlFirst = (input.size() & 1) != 0;    // the two options in either order
+      DeserializationError err = json ? (filtered ? (nlFirst ? deserializeJson(doc, input.data(), input.size(), NL, FL) : deserializeJson(doc, input.data(), input.size(), FL, NL)) : deserializeJson(doc, input.data(), input.size(), NL))
+                                      : (filtered ? (nlFirst ? deserializeMsgPack(doc, input.data(), input.size(), NL, FL) : deserializeMsgPack(doc, input.data(), input.size(), FL, NL)) : deserializeMsgPack(doc, input.data(), input.size(), NL));
       r = std::string(codeName(err)) + " " + dump(doc.as<JsonVariantConst>()) + " req=" + std::to_string(spy.requested) +
           " peak=" + std::to_string(spy.peak) + " calls=" + std::to_string(spy.calls);
     }
@@ -343,8 +347,9 @@ static std::string handle(const std::vector<std::string>& a) {
     {
       JsonDocument doc(&spy);
       doc["old"] = std::string("content that must disappear");     // dirty destination
-      DeserializationError err = json ? (filtered ? deserializeJson(doc, input.data(), input.size(), FL, NL) : deserializeJson(doc, input.data(), input.size(), NL))
-                                      : (filtered ? deserializeMsgPack(doc, input.data(), input.size(), FL, NL) : deserializeMsgPack(doc, input.data(), input.size(), NL));
+      bool nlFirst = (input.size() & 1) != 0;    // the two options in either order
+      DeserializationError err = json ? (filtered ? (nlFirst ? deserializeJson(doc, input.data(), input.size(), NL, FL) : deserializeJson(doc, input.data(), input.size(), FL, NL)) : deserializeJson(doc, input.data(), input.size(), NL))
+                                      : (filtered ? (nlFirst ? deserializeMsgPack(doc, input.data(), input.size(), NL, FL) : deserializeMsgPack(doc, input.data(), input.size(), FL, NL)) : deserializeMsgPack(doc, input.data(), input.size(), NL));
       size_t callsAfter = spy.calls;
       r = std::string(codeName(err)) + " " + dump(doc.as<JsonVariantConst>()) + " ov=" + (doc.overflowed() ? "1" : "0") + " calls=" + std::to_string(callsAfter);
       // the document is a well-formed tree: traverse, measure, serialize in both formats
@@ -414,8 +419,9 @@ static std::string handle(const std::vector<std::string>& a) {
     StackProbeReader rd(input);
     volatile char base = 0;
     uintptr_t top = reinterpret_cast<uintptr_t>(&base);
-    DeserializationError err = json ? (filtered ? deserializeJson(doc, rd, FL, NL) : deserializeJson(doc, rd, NL))
-                                    : (filtered ? deserializeMsgPack(doc, rd, FL, NL) : deserializeMsgPack(doc, rd, NL));
+    bool nlFirst = (input.size() & 1) != 0;    // the two options in either order
+    DeserializationError err = json ? (filtered ? (nlFirst ? deserializeJson(doc, rd, NL, FL) : deserializeJson(doc, rd, FL, NL)) : deserializeJson(doc, rd, NL))
+                                    : (filtered ? (nlFirst ? deserializeMsgPack(doc, rd, NL, FL) : deserializeMsgPack(doc, rd, FL, NL)) : deserializeMsgPack(doc, rd, NL));
     size_t used = rd.lowest == ~uintptr_t(0) ? 0 : (top > rd.lowest ? size_t(top - rd.lowest) : 0);
     return std::string(codeName(err)) + " stack=" + std::to_string(used) + " nesting=" + std::to_string(doc.nesting());
   }
